@@ -109,6 +109,14 @@ theorem is_prime_exact_below_2_64_partial (lg : Int → Int)
       rw [isPrime_complete lg N hp] at hb
       cases hb; rfl
 
+/-- non-vacuity of `hlg`: the exact ⌊log₂ n⌋ satisfies it -/
+example : ∀ n : Int, 1229 < n → n < 2 ^ 64 → (fun n : Int => ((n.toNat.log2 : Nat) : Int)) n < 299 := by
+  intro n h1 h2
+  have : n.toNat.log2 < 64 := by
+    apply (Nat.log2_lt (by omega)).mpr
+    omega
+  simp only; omega
+
 /-- non-vacuity of the Miller–Rabin theorems: a prime and a strong pseudoprime to base 2 above the table, a Carmichael
 number; `lg` = exact ⌊log₂⌋ -/
 example : isPrime (fun n => n.toNat.log2) 1231 = .ok true ∧ isPrime (fun n => n.toNat.log2) 2047 = .ok false ∧
@@ -133,14 +141,24 @@ theorem next_prime_no_prime_skipped (lg : Int → Int) (n : Int) :
 is sound at the returned value (`hsound`; below 2^64 this follows from `is_prime_exact_below_2_64_partial`, i.e. from ψ).
 Missing for the unconditional statement: soundness of the fixed-base Miller–Rabin test at the returned value. -/
 theorem next_prime_minimal_partial (lg : Int → Int) (n : Int)
-    (hsound : ∀ m : Nat, n < m → isPrime lg m = .ok true → m.Prime) :
+    (hsound : ∀ r : Nat, nextPrime lg n = .ok (r : Int) → isPrime lg r = .ok true → r.Prime) :
     ∃ r : Nat, nextPrime lg n = .ok (r : Int) ∧ r.Prime ∧ n < r ∧ ∀ q : Nat, q.Prime → n < q → r ≤ q := by
   by_cases h : n < 2
   · refine ⟨2, (next_prime_no_prime_skipped lg n).1 h, Nat.prime_two, by omega, fun q hq _ => hq.two_le⟩
   · obtain ⟨r, h1, h2, h3, h4⟩ := (next_prime_no_prime_skipped lg n).2 (by omega)
-    refine ⟨r, h1, hsound r h2 h3, h2, fun q hq hnq => ?_⟩
+    refine ⟨r, h1, hsound r h1 h3, h2, fun q hq hnq => ?_⟩
     by_contra hlt
     exact h4 q hnq (by omega) hq
+
+/-- non-vacuity of `hsound`: at `n = 1229` the returned value is 1231, which is prime -/
+example : ∀ r : Nat, nextPrime (fun n => n.toNat.log2) 1229 = .ok (r : Int) →
+    isPrime (fun n => n.toNat.log2) r = .ok true → r.Prime := by
+  intro r hr _
+  have h : nextPrime (fun n => n.toNat.log2) 1229 = .ok 1231 := by decide +kernel
+  rw [h] at hr
+  have : (r : Int) = 1231 := by injection hr with h'; exact h'.symm
+  have : r = 1231 := by omega
+  subst this; norm_num
 
 example : nextPrime (fun n => n.toNat.log2) 1229 = .ok 1231 ∧ nextPrime (fun n => n.toNat.log2) (-5) = .ok 2 ∧
     nextPrime (fun n => n.toNat.log2) 2046 = .ok 2053 := by decide +kernel
